@@ -143,7 +143,11 @@ def coord_exprs(draw):
     else:
         k = draw(st.sampled_from([2, 3, -2]))
         sexpr = sympy.Mul(sympy.Integer(k), sympy.Add(sympy.Symbol(names[0]), sympy.Integer(-1), evaluate=False), evaluate=False)
-    return {"kind": kind, "srepr": sympy.srepr(sexpr), "text": str(sexpr)}
+    # (sympy caches Symbol objects: a symbol first created by the compiler from a lark Token keeps that Token as its name,
+    #  and srepr then prints Token('NAME', 'q'); the case must be plain text)
+    import re as _re
+    sr = _re.sub(r"Token\('[A-Za-z_]+', '([^']*)'\)", r"'\1'", sympy.srepr(sexpr))
+    return {"kind": kind, "srepr": sr, "text": str(sexpr)}
 
 
 def eval_ast(node, env):
